@@ -8,6 +8,7 @@ CONSTANTS
   MaxReferrals = 5
   HintsOnFailed = TRUE
   BoundReferrals = FALSE
+  UnsolicitedFromTkt = TRUE
   Faithful = TRUE
   Codes = {6, 18}
   MaxLogins = 2
